@@ -819,6 +819,8 @@ class DataType(object):
                     normalized.add(self.format_utc_datetime(parse(value)))
                 except Exception:
                     raise EDXMLEventValidationError('Invalid datetime string: %s' % value)
+            else:
+                raise EDXMLEventValidationError('Invalid datetime value: %s' % repr(value))
         return normalized
 
     def _normalize_number(self, values):
